@@ -822,3 +822,191 @@ func ruleStakingUseMarksStandardForm(c *report.Ctx) {
 		c.Fail(key, "the merge of staking-form records no longer marks an already listed standard entry as used when the staking record is used: after a restore (standard rows pre-registered with height 0) an address that only ever received staking deposits is listed unused although the chain pays it", p.Pos(f.Pos()))
 	}
 }
+
+// ruleSuspendRefusesOnlyOnQuit (C20): the hand-shake reports "not parked" only when the handler is shutting down.
+func ruleSuspendRefusesOnlyOnQuit(c *report.Ctx) {
+	p := c.P
+	c.Rule("suspend-refuses-only-on-quit", "a function that performs the suspend hand-shake and reports its outcome as a bool returns false only on the select case that received from NtfnsHandler.quit: asyncRemove turns a false into ErrTaskAbort and the worker deliberately does not re-queue an aborted removal (the process is going down) — any other reason to answer false (a timeout while the follower is busy) silently drops an accepted removal, which then never finishes", 1)
+	hs := handShakeOf(p)
+	n := 0
+	var fs []*ssa.Function
+	for f := range hs.suspendFns {
+		fs = append(fs, f)
+	}
+	sortFuncs(fs)
+	for _, f := range fs {
+		res := f.Signature.Results()
+		if res.Len() != 1 || !isBoolT(res.At(0).Type()) || f.Blocks == nil {
+			continue
+		}
+		var sel *ssa.Select
+		an.Instrs(f, func(in ssa.Instruction) {
+			if s, ok := in.(*ssa.Select); ok && sel == nil {
+				for _, st := range s.States {
+					if st.Dir == types.SendOnly && strings.HasSuffix(p.Desc(st.Chan), "sigSuspend") {
+						sel = s
+					}
+				}
+			}
+		})
+		if sel == nil {
+			continue
+		}
+		quitIdx := -1
+		for i, st := range sel.States {
+			if st.Dir == types.RecvOnly && strings.HasSuffix(p.Desc(st.Chan), "NtfnsHandler.quit") {
+				quitIdx = i
+			}
+		}
+		n++
+		key := sk(f) + ":false=>quit"
+		if quitIdx < 0 {
+			c.Fail(key, "the suspend hand-shake no longer watches the quit channel", posOf(c, sel))
+			continue
+		}
+		bad := false
+		for _, b := range f.Blocks {
+			r, ok := b.Instrs[len(b.Instrs)-1].(*ssa.Return)
+			if !ok || len(r.Results) != 1 {
+				continue
+			}
+			rv := an.RetOperand(r, 0)
+			if ld, isLd := rv.(*ssa.UnOp); isLd { // spilled result (the function has a defer): the last store in this block
+				if cell, isCell := ld.X.(*ssa.Alloc); isCell {
+					if v := lastStoreIn(b, cell); v != nil {
+						rv = v
+					}
+				}
+			}
+			k, isK := rv.(*ssa.Const)
+			if !isK || k.Value == nil || k.Value.ExactString() != "false" {
+				continue
+			}
+			// which select cases can lead here?
+			possible := map[int]bool{}
+			for i := range sel.States {
+				possible[i] = true
+			}
+			if !sel.Blocking {
+				possible[-1] = true
+			}
+			for _, a := range p.Guards(b) {
+				ex, isEx := a.X.(*ssa.Extract)
+				if !isEx || ex.Tuple != ssa.Value(sel) || ex.Index != 0 {
+					continue
+				}
+				kc, isC := a.Y.(*ssa.Const)
+				if !isC || kc.Value == nil {
+					continue
+				}
+				v, exact := constantInt64FromString(kc.Value.ExactString())
+				if !exact {
+					continue
+				}
+				for i := range possible {
+					switch a.Op {
+					case token.EQL:
+						if int64(i) != v {
+							delete(possible, i)
+						}
+					case token.NEQ:
+						if int64(i) == v {
+							delete(possible, i)
+						}
+					}
+				}
+			}
+			for i := range possible {
+				if i != quitIdx && !bad {
+					bad = true
+					what := "another select case"
+					if i >= 0 && i < len(sel.States) {
+						what = "the case on " + p.Desc(sel.States[i].Chan)
+					}
+					c.Fail(key, nm(f)+" can answer false on "+what+", not only when quit is closed: the removal task treats false as 'shutting down' (ErrTaskAbort) and is not re-queued, so a wallet whose removal was accepted stays half-removed until the next restart", posOf(c, r))
+				}
+			}
+		}
+		if !bad {
+			c.OK(key, "false is returned on the quit case only", posOf(c, sel))
+		}
+	}
+	if n == 0 {
+		c.Fail("suspend", "no bool-valued suspend hand-shake function found (anchor lost)", "")
+	}
+}
+
+func constantInt64FromString(s string) (int64, bool) {
+	neg := false
+	if strings.HasPrefix(s, "-") {
+		neg = true
+		s = s[1:]
+	}
+	if s == "" {
+		return 0, false
+	}
+	var v int64
+	for _, ch := range s {
+		if ch < '0' || ch > '9' {
+			return 0, false
+		}
+		v = v*10 + int64(ch-'0')
+	}
+	if neg {
+		v = -v
+	}
+	return v, true
+}
+
+func isBoolT(t types.Type) bool {
+	b, ok := t.Underlying().(*types.Basic)
+	return ok && b.Kind() == types.Bool
+}
+
+// ruleEveryIssuedAddressCached (C04): an address that was derived, stored and returned is also findable in memory.
+func ruleEveryIssuedAddressCached(c *report.Ctx) {
+	p := c.P
+	c.Rule("every-issued-address-cached", "AddrManager.updateManagedAddress puts every address it is given into the in-memory table addrs (no iteration over its list returns to the loop head without the map update): the addresses were already derived, written to the database and handed to the caller — one that is skipped here (e.g. because an address of the OTHER branch has the same child index) cannot be looked up for signing and its incoming payments are ignored until the keystore is reloaded", 1)
+	f := fn(c, pkgKeystore, "AddrManager", "updateManagedAddress")
+	am := p.Type(pkgKeystore, "AddrManager")
+	if f == nil || am == nil {
+		return
+	}
+	var par *ssa.Parameter
+	for _, q := range f.Params {
+		if _, isSlice := q.Type().Underlying().(*types.Slice); isSlice {
+			par = q
+		}
+	}
+	var start ssa.Instruction
+	an.Instrs(f, func(in ssa.Instruction) {
+		if ia, ok := in.(*ssa.IndexAddr); ok && par != nil && ia.X == ssa.Value(par) && start == nil && loopHeaderOf(in.Block()) != nil {
+			start = in
+		}
+	})
+	key := sk(f) + ":each=>addrs[]="
+	if start == nil {
+		c.Fail(key, "no loop over the issued addresses found (anchor lost)", p.Pos(f.Pos()))
+		return
+	}
+	hdr := loopHeaderOf(start.Block())
+	isPut := func(in ssa.Instruction) bool {
+		mu, ok := in.(*ssa.MapUpdate)
+		if !ok {
+			return false
+		}
+		ld, ok := mu.Map.(*ssa.UnOp)
+		return ok && isFieldLoad(ld, am, "addrs")
+	}
+	idx := 0
+	for i, in := range start.Block().Instrs {
+		if in == start {
+			idx = i
+		}
+	}
+	if w := p.ReachBlockWithout(start.Block(), idx, nil, func(b, pred *ssa.BasicBlock) bool { return b == hdr }, isPut); w != nil {
+		c.Fail(key, "an issued address can be left out of the in-memory address table: it exists in the database and was returned to the caller, but GetManagedAddressBy… / SignHash do not find it (\"address not found\") and payments to it are not recognised until restart", posOf(c, start), w...)
+	} else {
+		c.OK(key, "every address of the list is cached", posOf(c, start))
+	}
+}
